@@ -78,11 +78,12 @@ func zeroSizePointee(t types.Type) bool {
 type taintAnalysis struct {
 	ctx      *Ctx
 	paramMem map[string][]sink // summary cache: fn + "#" + param index
+	paramRet map[string]bool   // the callee may return a reference derived from that parameter
 	inProg   map[string]bool
 }
 
 func newTaint(ctx *Ctx) *taintAnalysis {
-	return &taintAnalysis{ctx: ctx, paramMem: map[string][]sink{}, inProg: map[string]bool{}}
+	return &taintAnalysis{ctx: ctx, paramMem: map[string][]sink{}, paramRet: map[string]bool{}, inProg: map[string]bool{}}
 }
 
 // read-only externals: they do not write through their reference arguments (other
@@ -248,7 +249,9 @@ func (ta *taintAnalysis) run(fn *ssa.Function, seeds []ssa.Value) []sink {
 					}
 				}
 			case *ssa.Call:
-				ta.call(fn, x, &x.Call, v, seed, report)
+				if ta.call(fn, x, &x.Call, v, seed, report) && refLike(x.Type(), 0) {
+					add(x, seed) // the callee hands the reference back: the result is the same storage
+				}
 			}
 		}
 	}
@@ -298,7 +301,9 @@ func allocIsLocalOnly(a *ssa.Alloc) bool {
 	return true
 }
 
-func (ta *taintAnalysis) call(fn *ssa.Function, in ssa.Instruction, c *ssa.CallCommon, v, seed ssa.Value, report func(sinkKind, ssa.Instruction, string, ssa.Value)) {
+// call handles v being passed to a callee; it reports whether the call's result may be a reference to the same
+// storage (the callee returns its parameter, or is an external read-only function returning a reference).
+func (ta *taintAnalysis) call(fn *ssa.Function, in ssa.Instruction, c *ssa.CallCommon, v, seed ssa.Value, report func(sinkKind, ssa.Instruction, string, ssa.Value)) (resultShared bool) {
 	// calling a tainted function value is not a write
 	if c.Value == v && !c.IsInvoke() {
 		if _, isFn := v.Type().Underlying().(*types.Signature); isFn {
@@ -369,6 +374,13 @@ func (ta *taintAnalysis) call(fn *ssa.Function, in ssa.Instruction, c *ssa.CallC
 	for _, callee := range callees {
 		if !load.InModule(callee) || len(callee.Blocks) == 0 {
 			if externalReadOnly(callee.String()) {
+				// a read-only library function may still return a view of its argument (bytes.TrimSpace, ...)
+				if val, ok := in.(ssa.Value); ok {
+					switch val.Type().Underlying().(type) {
+					case *types.Slice, *types.Pointer, *types.Map:
+						resultShared = true
+					}
+				}
 				continue
 			}
 			report(sinkUnknown, in, "passed to "+callee.String(), seed)
@@ -381,8 +393,12 @@ func (ta *taintAnalysis) call(fn *ssa.Function, in ssa.Instruction, c *ssa.CallC
 			for _, s := range ta.paramSummary(callee, pi) {
 				report(sinkCallee, in, fmt.Sprintf("passed to %s which does: %s at %s", fnShort(callee), s.What, ta.ctx.Prog.Pos(s.Instr.Pos())), seed)
 			}
+			if ta.paramReturned(callee, pi) {
+				resultShared = true
+			}
 		}
 	}
+	return resultShared
 }
 
 // implementations resolves an interface method call to the module's methods (CHA).
@@ -431,16 +447,24 @@ func (ta *taintAnalysis) paramSummary(callee *ssa.Function, pi int) []sink {
 	ta.inProg[key] = true
 	s := ta.run(callee, []ssa.Value{callee.Params[pi]})
 	delete(ta.inProg, key)
-	// returning the parameter itself (builder style `return b`) is not an escape of shared state by the callee
+	// returning the parameter itself (builder style `return b`) is not an escape of shared state by the callee:
+	// the caller's result is then a reference to the same storage (paramReturned) and is followed there
 	var out []sink
 	for _, x := range s {
 		if _, isRet := x.Instr.(*ssa.Return); isRet {
+			ta.paramRet[key] = true
 			continue
 		}
 		out = append(out, x)
 	}
 	ta.paramMem[key] = out
 	return out
+}
+
+// paramReturned reports whether callee may return a reference derived from its parameter pi.
+func (ta *taintAnalysis) paramReturned(callee *ssa.Function, pi int) bool {
+	ta.paramSummary(callee, pi)
+	return ta.paramRet[fmt.Sprintf("%s#%d", callee.String(), pi)]
 }
 
 // isInitFunc: package initialisers run before any other code of the package.
